@@ -1,10 +1,14 @@
 // Package sched is a controlled scheduler for real goroutines with preemption-bounded
 // exhaustive exploration (iterative context bounding). Every synchronisation operation of
-// the vuego module reaches Before/After through the vsync seam. Hand-offs between the
-// controller and the controlled goroutines are raw pipe syscalls issued from //go:norace
-// functions, so they are invisible to the Go race detector: its happens-before graph only
-// contains the edges the program's own synchronisation creates, while the interleaving is
-// completely determined by the explorer.
+// the vuego module reaches Before/After through the vsync seam.
+//
+// The scheduling decision is taken *inline* by the goroutine that reaches a scheduling
+// point: the whole scheduler state lives in fixed-size package-level arrays that are only
+// touched from //go:norace functions (no append, no map, no copy - those call into the race
+// runtime), and a goroutine is only parked/woken - through raw pipe syscalls - when control
+// really moves to another goroutine. All of this is invisible to the Go race detector: its
+// happens-before graph only contains the edges the program's own synchronisation creates,
+// while the interleaving is completely determined by the explorer.
 package sched
 
 import (
@@ -16,146 +20,287 @@ import (
 	"github.com/titpetric/vuego/zverif/vsync"
 )
 
-const maxThreads = 8
+const (
+	maxThreads = 8
+	maxPoints  = 1 << 14
+	maxLocks   = 64
+)
 
 const (
 	opStart = 100 + iota
 	opExit
-	opReleaseNote // a releasing operation took effect (no scheduling decision needed)
-	opYield       // explicit scheduling point from a harness (e.g. file-system access)
+	opYield // explicit scheduling point from a harness (e.g. file-system access)
 )
 
-// shared between controller and threads; accessed only from //go:norace functions
-var (
-	active  bool
-	current int
-	ctlR    int
-	ctlW    int
-	wakeR   [maxThreads]int
-	wakeW   [maxThreads]int
-)
+// scheduler state; accessed only from //go:norace functions while a run is active
+var st struct {
+	active    bool
+	n         int
+	running   int
+	remaining int
+	pending   [maxThreads]int
+	pobj      [maxThreads]uintptr
+	finished  [maxThreads]bool
+
+	nlocks  int
+	lockObj [maxLocks]uintptr
+	lockW   [maxLocks]int // writer thread or -1
+	lockR   [maxLocks]int // reader count
+
+	nprefix int
+	prefix  [maxPoints]int16
+
+	npoints  int
+	chosen   [maxPoints]int8
+	nEnabled [maxPoints]int8
+	enabled  [maxPoints][maxThreads]int8
+	runEn    [maxPoints]bool
+	op       [maxPoints]int16
+
+	ops      int
+	deadlock bool
+	diverged bool
+	overflow bool
+	foreign  bool
+
+	wakeR [maxThreads + 1]int // index maxThreads = controller
+	wakeW [maxThreads + 1]int
+}
+
+const ctl = maxThreads
 
 //go:norace
-func setCurrent(t int) { current = t }
-
-//go:norace
-func getCurrent() int { return current }
-
-//go:norace
-func setActive(a bool) { active = a }
-
-//go:norace
-func isActive() bool { return active }
-
-//go:norace
-func wakeFdR(t int) int { return wakeR[t] }
-
-//go:norace
-func wakeFdW(t int) int { return wakeW[t] }
-
-//go:norace
-func ctlFds() (int, int) { return ctlR, ctlW }
-
-//go:norace
-func rawWrite(fd int, b *[24]byte, n int) {
+func rawWrite1(fd int) {
+	var b [1]byte
 	for {
-		r, _, e := syscall.Syscall(syscall.SYS_WRITE, uintptr(fd), uintptr(unsafe.Pointer(b)), uintptr(n))
+		r, _, e := syscall.Syscall(syscall.SYS_WRITE, uintptr(fd), uintptr(unsafe.Pointer(&b)), 1)
 		if e == syscall.EINTR {
 			continue
 		}
-		if int(r) != n {
-			panic("sched: short pipe write")
+		if r != 1 {
+			panic("sched: pipe write failed")
 		}
 		return
 	}
 }
 
 //go:norace
-func rawRead(fd int, b *[24]byte, n int) {
-	got := 0
-	for got < n {
-		r, _, e := syscall.Syscall(syscall.SYS_READ, uintptr(fd), uintptr(unsafe.Pointer(&b[got])), uintptr(n-got))
+func rawRead1(fd int) {
+	var b [1]byte
+	for {
+		r, _, e := syscall.Syscall(syscall.SYS_READ, uintptr(fd), uintptr(unsafe.Pointer(&b)), 1)
 		if e == syscall.EINTR {
 			continue
 		}
-		if e != 0 || r == 0 {
+		if e != 0 || r != 1 {
 			panic("sched: pipe read failed")
 		}
-		got += int(r)
+		return
 	}
 }
 
 //go:norace
-func putMsg(b *[24]byte, tid, op int, obj uintptr) {
-	v := [3]uint64{uint64(tid), uint64(op), uint64(obj)}
-	for i := 0; i < 3; i++ {
-		for j := 0; j < 8; j++ {
-			b[i*8+j] = byte(v[i] >> (8 * j))
+func lockIdx(obj uintptr) int {
+	for i := 0; i < st.nlocks; i++ {
+		if st.lockObj[i] == obj {
+			return i
 		}
 	}
+	if st.nlocks == maxLocks {
+		st.overflow = true
+		return 0
+	}
+	i := st.nlocks
+	st.lockObj[i], st.lockW[i], st.lockR[i] = obj, -1, 0
+	st.nlocks++
+	return i
 }
 
 //go:norace
-func getMsg(b *[24]byte) (tid, op int, obj uintptr) {
-	var v [3]uint64
-	for i := 0; i < 3; i++ {
-		for j := 0; j < 8; j++ {
-			v[i] |= uint64(b[i*8+j]) << (8 * j)
+func isEnabled(t int) bool {
+	if st.finished[t] {
+		return false
+	}
+	switch st.pending[t] {
+	case vsync.OpLock:
+		l := lockIdx(st.pobj[t])
+		return st.lockW[l] == -1 && st.lockR[l] == 0
+	case vsync.OpRLock:
+		return st.lockW[lockIdx(st.pobj[t])] == -1
+	}
+	return true
+}
+
+// decide picks the next thread to run (recording the point) and grants its pending
+// operation in the lock model. It returns -1 on deadlock / divergence / overflow.
+//
+//go:norace
+func decide() int {
+	p := st.npoints
+	if p >= maxPoints {
+		st.overflow = true
+		return -1
+	}
+	ne := 0
+	st.runEn[p] = false
+	if st.running >= 0 && isEnabled(st.running) {
+		st.enabled[p][ne] = int8(st.running)
+		ne++
+		st.runEn[p] = true
+	}
+	for t := 0; t < st.n; t++ {
+		if t != st.running && isEnabled(t) {
+			st.enabled[p][ne] = int8(t)
+			ne++
 		}
 	}
-	return int(v[0]), int(v[1]), uintptr(v[2])
+	if ne == 0 {
+		st.deadlock = true
+		return -1
+	}
+	c := 0
+	if p < st.nprefix {
+		c = int(st.prefix[p])
+		if c < 0 || c >= ne {
+			st.diverged = true
+			return -1
+		}
+	}
+	t := int(st.enabled[p][c])
+	st.nEnabled[p], st.chosen[p], st.op[p] = int8(ne), int8(c), int16(st.pending[t])
+	st.npoints++
+	switch st.pending[t] {
+	case vsync.OpLock:
+		st.lockW[lockIdx(st.pobj[t])] = t
+	case vsync.OpRLock:
+		st.lockR[lockIdx(st.pobj[t])]++
+	}
+	st.running = t
+	return t
+}
+
+// point is a scheduling point of the running thread.
+//
+//go:norace
+func point(op int, obj uintptr) {
+	t := st.running
+	st.ops++
+	st.pending[t], st.pobj[t] = op, obj
+	next := decide()
+	if next == t {
+		return
+	}
+	if next < 0 {
+		rawWrite1(st.wakeW[ctl]) // deadlock / divergence: hand control back to the controller
+	} else {
+		rawWrite1(st.wakeW[next])
+	}
+	rawRead1(st.wakeR[t]) // parked until some thread (or nobody, on deadlock) chooses us
 }
 
 // hook implements vsync.Scheduler.
 type hook struct{}
 
-// Before announces a blocking-capable or state-touching operation and waits to be scheduled.
-//
 //go:norace
 func (hook) Before(op int, obj uintptr) {
-	if !isActive() {
+	if !st.active {
 		return
 	}
-	tid := getCurrent()
-	var b [24]byte
-	putMsg(&b, tid, op, obj)
-	_, w := ctlFds()
-	rawWrite(w, &b, 24)
-	rawRead(wakeFdR(tid), &b, 1)
+	point(op, obj)
 }
 
-// After notes that a releasing operation took effect.
-//
 //go:norace
 func (hook) After(op int, obj uintptr) {
-	if !isActive() {
+	if !st.active {
 		return
 	}
-	var b [24]byte
-	putMsg(&b, getCurrent(), opReleaseNote+1000*op, obj)
-	_, w := ctlFds()
-	rawWrite(w, &b, 24)
+	switch op {
+	case vsync.OpUnlock:
+		st.lockW[lockIdx(obj)] = -1
+	case vsync.OpRUnlock:
+		st.lockR[lockIdx(obj)]--
+	}
 }
 
 // Yield is an explicit scheduling point for harness code (controlled threads only).
 //
 //go:norace
-func Yield(obj uintptr) { hook{}.Before(opYield, obj) }
+func Yield(obj uintptr) {
+	if st.active {
+		point(opYield, obj)
+	}
+}
+
+//go:norace
+func threadExit(t int) {
+	st.finished[t] = true
+	st.remaining--
+	st.ops++
+	if st.remaining == 0 {
+		rawWrite1(st.wakeW[ctl])
+		return
+	}
+	next := decide()
+	if next < 0 {
+		rawWrite1(st.wakeW[ctl])
+		return
+	}
+	rawWrite1(st.wakeW[next])
+}
+
+//go:norace
+func threadStart(t int) { rawRead1(st.wakeR[t]) }
+
+//go:norace
+func begin(n int, prefix []int) bool {
+	st.n, st.running, st.remaining = n, -1, n
+	st.nlocks, st.npoints, st.ops = 0, 0, 0
+	st.deadlock, st.diverged, st.overflow, st.foreign = false, false, false, false
+	for t := 0; t < n; t++ {
+		st.pending[t], st.pobj[t], st.finished[t] = opStart, 0, false
+	}
+	if len(prefix) > maxPoints {
+		return false
+	}
+	st.nprefix = len(prefix)
+	for i := 0; i < len(prefix); i++ {
+		st.prefix[i] = int16(prefix[i])
+	}
+	st.active = true
+	return true
+}
+
+//go:norace
+func kick() {
+	next := decide()
+	if next < 0 {
+		return
+	}
+	rawWrite1(st.wakeW[next])
+	rawRead1(st.wakeR[ctl]) // until the last thread exits, or deadlock/divergence
+}
+
+//go:norace
+func end() { st.active = false }
+
+//go:norace
+func snapshot(r *Result) (deadlock, diverged, overflow bool, blocked [maxThreads]bool, np int, chosen, nEn []int8, en [][maxThreads]int8, runEn []bool, ops []int16, nops int) {
+	for t := 0; t < st.n; t++ {
+		blocked[t] = !st.finished[t]
+	}
+	return st.deadlock, st.diverged, st.overflow, blocked, st.npoints, st.chosen[:st.npoints], st.nEnabled[:st.npoints], st.enabled[:st.npoints], st.runEn[:st.npoints], st.op[:st.npoints], st.ops
+}
 
 var initOnce sync.Once
 
 func initPipes() {
 	initOnce.Do(func() {
-		mk := func() (int, int) {
+		for i := 0; i <= maxThreads; i++ {
 			var p [2]int
 			if err := syscall.Pipe(p[:]); err != nil {
 				panic(err)
 			}
-			return p[0], p[1]
-		}
-		ctlR, ctlW = mk()
-		for i := 0; i < maxThreads; i++ {
-			wakeR[i], wakeW[i] = mk()
+			st.wakeR[i], st.wakeW[i] = p[0], p[1]
 		}
 		vsync.S = hook{}
 	})
@@ -178,10 +323,7 @@ type Result struct {
 	Ops      int   // synchronisation operations announced
 }
 
-type lockState struct {
-	writer  int // -1 none
-	readers int
-}
+var panicValue [maxThreads]any
 
 // Run executes the threads under the scheduler, following prefix and then always choice 0.
 // An out-of-range choice in prefix is a hard error (replay divergence).
@@ -191,127 +333,53 @@ func Run(threads []func(), prefix []int) (res Result, err error) {
 	}
 	initPipes()
 	n := len(threads)
-	pending := make([]int, n)  // pending op per thread
-	pobj := make([]uintptr, n) // its object
-	finished := make([]bool, n)
-	locks := map[uintptr]*lockState{}
-	lock := func(o uintptr) *lockState {
-		l := locks[o]
-		if l == nil {
-			l = &lockState{writer: -1}
-			locks[o] = l
-		}
-		return l
+	if !begin(n, prefix) {
+		return res, fmt.Errorf("choice vector too long")
 	}
 	var wg sync.WaitGroup
-	setActive(true)
-	defer setActive(false)
 	for i := 0; i < n; i++ {
-		pending[i] = opStart
 		wg.Add(1)
 		i := i
 		go func() {
 			defer wg.Done()
-			var b [24]byte
-			rawRead(wakeFdR(i), &b, 1) // start gate
+			threadStart(i)
 			defer func() {
-				// a panic in a thread must still release the controller
+				// a panic in a thread must still release the others
 				if r := recover(); r != nil {
 					panicValue[i] = r
 				}
-				putMsg(&b, i, opExit, 0)
-				_, w := ctlFds()
-				rawWrite(w, &b, 24)
+				threadExit(i)
 			}()
 			threads[i]()
 		}()
 	}
-	running := -1
-	remaining := n
-	enabled := func(t int) bool {
-		if finished[t] {
-			return false
+	kick()
+	end()
+	deadlock, diverged, overflow, blocked, np, chosen, nEn, en, runEn, ops, nops := snapshot(&res)
+	res.Ops = nops
+	for p := 0; p < np; p++ {
+		pt := Point{Chosen: int(chosen[p]), RunningEnabled: runEn[p], Op: int(ops[p])}
+		for k := 0; k < int(nEn[p]); k++ {
+			pt.Enabled = append(pt.Enabled, int(en[p][k]))
 		}
-		switch pending[t] {
-		case vsync.OpLock:
-			l := lock(pobj[t])
-			return l.writer == -1 && l.readers == 0
-		case vsync.OpRLock:
-			return lock(pobj[t]).writer == -1
-		}
-		return true
+		res.Points = append(res.Points, pt)
+		res.Choices = append(res.Choices, pt.Chosen)
 	}
-	step := 0
-	for remaining > 0 {
-		var en []int
-		runEn := false
-		if running >= 0 && enabled(running) {
-			en = append(en, running)
-			runEn = true
-		}
+	if diverged {
+		return res, fmt.Errorf("replay diverged at point %d", np)
+	}
+	if overflow {
+		return res, fmt.Errorf("scheduler table overflow (points=%d)", np)
+	}
+	if deadlock {
+		res.Deadlock = true
 		for t := 0; t < n; t++ {
-			if t != running && enabled(t) {
-				en = append(en, t)
+			if blocked[t] {
+				res.Blocked = append(res.Blocked, t)
 			}
 		}
-		if len(en) == 0 {
-			res.Deadlock = true
-			for t := 0; t < n; t++ {
-				if !finished[t] {
-					res.Blocked = append(res.Blocked, t)
-				}
-			}
-			// cannot join blocked goroutines: leak them (the worker process is recycled by the caller)
-			return res, nil
-		}
-		c := 0
-		if step < len(prefix) {
-			c = prefix[step]
-			if c < 0 || c >= len(en) {
-				return res, fmt.Errorf("replay diverged at point %d: choice %d of %d enabled", step, c, len(en))
-			}
-		}
-		t := en[c]
-		res.Points = append(res.Points, Point{Enabled: en, Chosen: c, RunningEnabled: runEn, Op: pending[t]})
-		res.Choices = append(res.Choices, c)
-		step++
-		// grant the pending operation in the model
-		switch pending[t] {
-		case vsync.OpLock:
-			lock(pobj[t]).writer = t
-		case vsync.OpRLock:
-			lock(pobj[t]).readers++
-		}
-		running = t
-		setCurrent(t)
-		var b [24]byte
-		rawWrite(wakeFdW(t), &b, 1)
-		// wait for the next announcement of the running thread
-		for {
-			r, _ := ctlFds()
-			rawRead(r, &b, 24)
-			tid, op, obj := getMsg(&b)
-			if tid != t {
-				return res, fmt.Errorf("message from thread %d while %d is running: uncontrolled goroutine uses the engine", tid, t)
-			}
-			if op >= 1000 { // release note
-				switch op / 1000 {
-				case vsync.OpUnlock:
-					lock(obj).writer = -1
-				case vsync.OpRUnlock:
-					lock(obj).readers--
-				}
-				continue
-			}
-			res.Ops++
-			if op == opExit {
-				finished[t] = true
-				remaining--
-			} else {
-				pending[t], pobj[t] = op, obj
-			}
-			break
-		}
+		// blocked goroutines cannot be joined: they are leaked (the worker is recycled by the caller)
+		return res, nil
 	}
 	wg.Wait() // real synchronisation: everything of this execution happens-before the next one
 	for i := 0; i < n; i++ {
@@ -324,8 +392,6 @@ func Run(threads []func(), prefix []int) (res Result, err error) {
 	return res, nil
 }
 
-var panicValue [maxThreads]any
-
 // Preemptions counts the preemptions of an execution up to (not including) point i.
 func Preemptions(points []Point, upto int) int {
 	c := 0
@@ -335,51 +401,4 @@ func Preemptions(points []Point, upto int) int {
 		}
 	}
 	return c
-}
-
-// Explore runs every schedule with at most bound preemptions. visit is called for every
-// complete execution with the choice vector that produced it; returning false stops.
-// It returns the number of executions and whether the exploration is complete.
-func Explore(mk func() []func(), bound int, limit int, visit func(choices []int, r Result, err error) bool) (execs int, complete bool) {
-	complete = true
-	stop := false
-	var rec func(prefix []int)
-	rec = func(prefix []int) {
-		if stop {
-			return
-		}
-		if limit > 0 && execs >= limit {
-			complete = false
-			stop = true
-			return
-		}
-		r, err := Run(mk(), prefix)
-		execs++
-		if !visit(append([]int(nil), r.Choices...), r, err) || err != nil || r.Deadlock {
-			if err != nil || r.Deadlock {
-				stop = true
-			}
-			return
-		}
-		for i := len(prefix); i < len(r.Points); i++ {
-			p := r.Points[i]
-			cost := Preemptions(r.Points, i)
-			for alt := 1; alt < len(p.Enabled); alt++ {
-				c := cost
-				if p.RunningEnabled {
-					c++ // switching away from a runnable thread is a preemption
-				}
-				if c > bound {
-					continue
-				}
-				np := append(append([]int(nil), r.Choices[:i]...), alt)
-				rec(np)
-				if stop {
-					return
-				}
-			}
-		}
-	}
-	rec(nil)
-	return execs, complete
 }
